@@ -54,6 +54,15 @@ def c09(run):
     engine_step(run, 'math', ['C09'])
     run.assumptions += ['references are the textbook index-notation formulas evaluated in __float128']
 
+@plan('C10')
+def c10(run):
+    engine_step(run, 'rel', ['C10'])
+    run.assumptions += ['lengths are generated inside the stated range with the guard band ||v||^2 >= min_normal 2^(p+2) (below it the squares of the components are subnormal)']
+
+@plan('C11')
+def c11(run):
+    engine_step(run, 'rel', ['C11'])
+
 @plan('C14')
 def c14(run):
     engine_step(run, 'qty', ['C14'])
